@@ -24,8 +24,8 @@ RULE = ("stress cases: random histories of add/remove/move/query on the real Cel
         "(call site, cell size) pairs with at least one query plus distinct structures")
 ASSUMPTIONS = ["brute force over the atoms currently owned by residues is the ground truth for 'every atom'",
                "a query is judged at the moment it is made (under the code's own single thread)"]
-MIN = {"quick": {"stress_queries": 20000, "invivo_queries": 6000, "stress_moves_across_cells": 500},
-       "thorough": {"stress_queries": 600000, "invivo_queries": 150000, "stress_moves_across_cells": 20000}}
+MIN = {"quick": {"stress_queries": 20000, "invivo_queries": 6000, "stress_moves_across_cells": 500, "pka_route_runs": 6},
+       "thorough": {"stress_queries": 600000, "invivo_queries": 150000, "stress_moves_across_cells": 20000, "pka_route_runs": 300}}
 SHARDS_PER_JOB = 4
 
 
